@@ -88,7 +88,15 @@ Inductive instr :=
 
 Inductive call :=
 | CConnect | CPub0 | CPub1 | CPub2 | CSub | CUnsub | CPing | CDisconnect
-| CRetryPing.   (* RetryClient.Ping with ResponseTimeout set *)
+| CRetryPing    (* RetryClient.Ping with ResponseTimeout set *)
+(* ErrorWithRetry.Retry(ctx2, cli2): the retry handle of an interrupted request run on a new connection with a
+   context of its own. The "x" variants: the context of the first attempt is already cancelled. *)
+| CRPub1 | CRPub1x       (* QoS1: publishImpl again, DUP set            publish.go:167-169 *)
+| CRPub2 | CRPub2x       (* QoS2 interrupted before PUBREC: publishImpl again *)
+| CRRel | CRRelx         (* QoS2 interrupted after PUBREC: retryPublish2 — PUBREL, wait PUBCOMP; takes no lock
+                            publish.go:196-222 *)
+| CRSub | CRSubx         (* subscribe.go:84-87 *)
+| CRUnsub | CRUnsubx.    (* unsubscribe.go:60-62 *)
 
 Definition program (c : call) : list instr :=
   match c with
@@ -102,6 +110,11 @@ Definition program (c : call) : list instr :=
   | CPing => [IRLock; IWrite WkErr; ISelect WkErr WkErr]                        (* pingreq.go:24,39,42-47 *)
   | CRetryPing => [IRLock; IWrite WkErr; ISelect WkErr WkErr]                   (* same code, other context *)
   | CDisconnect => [IRLock; ISetDisconnected; IWrite WkErr; ICloseTransport]    (* disconnect.go:23-32 *)
+  | CRPub1 | CRPub1x => [IRLock; IWrite WkRetry; ISelect WkRetry WkRetry]
+  | CRPub2 | CRPub2x => [IRLock; IWrite WkRetry; ISelect WkRetry WkRetry; IWrite WkRetry; ISelect WkRetry WkRetry]
+  | CRRel | CRRelx => [IWrite WkRetry; ISelect WkRetry WkRetry]                 (* publish.go:210-220 *)
+  | CRSub | CRSubx => [IRLock; IWrite WkRetry; ISelect WkRetry WkRetry]
+  | CRUnsub | CRUnsubx => [IRLock; IWrite WkRetry; ISelect WkRetry WkRetry]
   end.
 
 Inductive hold := HNone | HR | HW.
@@ -116,15 +129,20 @@ Record cst := mkC {
   ackready : bool;        (* the acknowledgement the call is (or will be) waiting for is in its channel *)
   answers : nat;          (* peer script: how many further requests of this call the peer answers *)
   held : hold;            (* what it holds of muConnecting *)
-  res : result
+  res : result;
+  ocx : ctxst             (* retry handles only: state of the context of the FIRST attempt (the one the interrupted
+                             call was given). The handle's closure has a context parameter of its own
+                             (publish.go retryPublish/retryPublish2, subscribe.go, unsubscribe.go): nothing below
+                             ever reads this field — that is the statement *)
 }.
 
-Definition set_rest c r := mkC r (cx c) (rtc c) (outer c) (ackready c) (answers c) (held c) (res c).
-Definition set_cx c x := mkC (rest c) x (rtc c) (outer c) (ackready c) (answers c) (held c) (res c).
-Definition set_ack c a := mkC (rest c) (cx c) (rtc c) (outer c) a (answers c) (held c) (res c).
-Definition set_answers c n := mkC (rest c) (cx c) (rtc c) (outer c) (ackready c) n (held c) (res c).
-Definition set_held c h := mkC (rest c) (cx c) (rtc c) (outer c) (ackready c) (answers c) h (res c).
-Definition set_res c r := mkC (rest c) (cx c) (rtc c) (outer c) (ackready c) (answers c) (held c) r.
+Definition set_rest c r := mkC r (cx c) (rtc c) (outer c) (ackready c) (answers c) (held c) (res c) (ocx c).
+Definition set_cx c x := mkC (rest c) x (rtc c) (outer c) (ackready c) (answers c) (held c) (res c) (ocx c).
+Definition set_ack c a := mkC (rest c) (cx c) (rtc c) (outer c) a (answers c) (held c) (res c) (ocx c).
+Definition set_answers c n := mkC (rest c) (cx c) (rtc c) (outer c) (ackready c) n (held c) (res c) (ocx c).
+Definition set_held c h := mkC (rest c) (cx c) (rtc c) (outer c) (ackready c) (answers c) h (res c) (ocx c).
+Definition set_res c r := mkC (rest c) (cx c) (rtc c) (outer c) (ackready c) (answers c) (held c) r (ocx c).
+Definition set_ocx c x := mkC (rest c) (cx c) (rtc c) (outer c) (ackready c) (answers c) (held c) (res c) x.
 
 (* return err: the deferred unlock is implied, a returned call holds nothing (see [active]) *)
 Definition finish (c : cst) (e : errv) : cst :=
@@ -330,31 +348,40 @@ Inductive cause :=
 
 Definition is_ctx (z : cause) : bool := match z with CtxCancel | CtxDeadline => true | _ => false end.
 
-Definition call_eqb (a b : call) : bool :=
-  match a, b with
-  | CConnect, CConnect | CPub0, CPub0 | CPub1, CPub1 | CPub2, CPub2 | CSub, CSub | CUnsub, CUnsub
-  | CPing, CPing | CDisconnect, CDisconnect | CRetryPing, CRetryPing => true
-  | _, _ => false
+Definition call_code (c : call) : nat :=
+  match c with
+  | CConnect => 0 | CPub0 => 1 | CPub1 => 2 | CPub2 => 3 | CSub => 4 | CUnsub => 5 | CPing => 6 | CDisconnect => 7
+  | CRetryPing => 8 | CRPub1 => 9 | CRPub1x => 10 | CRPub2 => 11 | CRPub2x => 12 | CRRel => 13 | CRRelx => 14
+  | CRSub => 15 | CRSubx => 16 | CRUnsub => 17 | CRUnsubx => 18
   end.
+
+Definition call_eqb (a b : call) : bool := Nat.eqb (call_code a) (call_code b).
+
+Definition orig_cancelled (c : call) : bool :=
+  match c with CRPub1x | CRPub2x | CRRelx | CRSubx | CRUnsubx => true | _ => false end.
+
+Definition takes_lock (c : call) : bool :=
+  match program c with IRLock :: _ | IWLock :: _ => true | _ => false end.
 
 Definition is_retry_ping (c : call) : bool := call_eqb c CRetryPing.
 
 Definition fresh (c : call) (ans : nat) : cst :=
-  mkC (program c) CtxLive (is_retry_ping c) (is_retry_ping c) false ans HNone Running.
+  mkC (program c) CtxLive (is_retry_ping c) (is_retry_ping c) false ans HNone Running
+      (if orig_cancelled c then CtxCanceled else CtxLive).
 
 (* a finished call, used as a place holder for "not issued yet" *)
-Definition dormant : cst := mkC [] CtxLive false false false 0 HNone RetNil.
+Definition dormant : cst := mkC [] CtxLive false false false 0 HNone RetNil CtxLive.
 
 Definition conn0 (started : bool) (cs : list cst) : sys :=
   mkS false false [] (if started then RServing else RNotStarted) false false false cs.
 
 Definition nwaits (c : call) : nat :=
-  match c with CPub0 | CDisconnect => 0 | CPub2 => 2 | _ => 1 end.
+  match c with CPub0 | CDisconnect => 0 | CPub2 | CRPub2 | CRPub2x => 2 | _ => 1 end.
 
 (* which cells exist *)
 Definition valid (c : call) (p : point) (z : cause) : bool :=
   match p with
-  | PEntry => negb (call_eqb c CConnect) && match z with LocalDisconnect => false | _ => true end
+  | PEntry => negb (call_eqb c CConnect) && takes_lock c && match z with LocalDisconnect => false | _ => true end
   | PBefore => true
   | PWait1 => Nat.leb 1 (nwaits c) && negb (call_eqb c CConnect && match z with LocalDisconnect => true | _ => false end)
   | PWait2 => Nat.leb 2 (nwaits c)
@@ -487,7 +514,8 @@ Definition cell_ok (k : cell) : bool :=
   let '(c, p, z) := k in
   forallb (fun r => match r with Some o => ok_outcome c z o | None => false end) (raw_outcomes k).
 
-Definition all_calls := [CConnect; CPub0; CPub1; CPub2; CSub; CUnsub; CPing; CDisconnect; CRetryPing].
+Definition all_calls := [CConnect; CPub0; CPub1; CPub2; CSub; CUnsub; CPing; CDisconnect; CRetryPing;
+                         CRPub1; CRPub1x; CRPub2; CRPub2x; CRRel; CRRelx; CRSub; CRSubx; CRUnsub; CRUnsubx].
 Definition all_points := [PEntry; PBefore; PWait1; PWait2; PInWrite].
 Definition all_causes := [CtxCancel; CtxDeadline; LocalClose; LocalDisconnect; PeerClose; Malformed].
 
